@@ -5,8 +5,8 @@
     (slice indexing, range slicing, unsigned subtraction, the panicking hex decoder of the
     scalar library) are never reached with an argument on which they unwind. *)
 From Coq Require Import ZArith List Bool.
-From ACV Require Import Model.Res Model.Bytes Model.ClaimCodec Model.Skeleton Model.SkelCreate.
-From ACV Require Import Proofs.TotalP Proofs.SkeletonP Proofs.SkelCreateP.
+From ACV Require Import Model.Res Model.Bytes Model.ClaimCodec Model.Skeleton Model.SkelCreate Model.SkelBlind.
+From ACV Require Import Proofs.TotalP Proofs.SkeletonP Proofs.SkelCreateP Proofs.SkelBlindP.
 Import ListNotations.
 
 (** claim parsing and scalar unpacking: every byte string / every scalar *)
@@ -80,6 +80,22 @@ Example C20_create_skeleton_accepts_something :
   /\ create creds (firstn 2 S0) all_pass_c = Err.     (* the range statement's commitment statement is missing *)
 Proof. split; vm_compute; reflexivity. Qed.
 
+(** blind issuance: the holder's request from issuer-supplied public data (any schema, any key
+    size), the issuer's handling of a holder-supplied request (any labels, any response count;
+    the hypothesis is the issuer's own schema invariant: as many claim schemas as labels), the
+    stand-alone request verification, and unblinding of an issuer-supplied bundle *)
+Theorem C20_blind_request_total : forall sc ngens labels orc, request_new sc ngens labels orc <> Panic.
+Proof. exact request_new_np. Qed.
+Theorem C20_blind_sign_total : forall ps sc nkey nresp req_labels known_labels valid o1 o2 o3 o4,
+  b_nclaims sc = length (b_labels sc) ->
+  blind_sign_credential ps sc nkey nresp req_labels known_labels valid o1 o2 o3 o4 <> Panic.
+Proof. exact blind_sign_credential_np. Qed.
+Theorem C20_blind_request_verify_total : forall ps sc nkey nresp labels orc, request_verify ps sc nkey nresp labels orc <> Panic.
+Proof. exact request_verify_np. Qed.
+Theorem C20_unblind_total : forall sc bundle_labels blind_labels rl, to_unblinded sc bundle_labels blind_labels rl <> Panic.
+Proof. exact to_unblinded_np. Qed.
+
+Print Assumptions C20_blind_sign_total.
 Print Assumptions C20_create_total.
 Print Assumptions C20_from_text_total.
 Print Assumptions C20_verify_total.
